@@ -41,15 +41,19 @@ impl LinkS {
             detach.closed && old(self).st is CloseSent ==> final(self).st is Closed && (detach.error is Some ==> r is Err) && (detach.error is None ==> r is Ok),
             !detach.closed && old(self).st is DetachSent ==> final(self).st is Detached && (detach.error is Some ==> r is Err) && (detach.error is None ==> r is Ok),
             !detach.closed && !(old(self).st is Attached || old(self).st is DetachSent) ==> r is Err && final(self).st == old(self).st,
+            detach.error is Some ==> r is Err && !(r->Err_0 is ClosedByRemote) && !(r->Err_0 is DetachedByRemote),   // [C13.link.peer-detach-error-reported] of unit LINK
+            r is Err && r->Err_0 is ClosedByRemote ==> old(self).st is DetachSent && detach.closed && detach.error is None,
     { unimplemented!() }
 }
 opaque!(Attach, LinkFlow, Disposition, Transfer, Payload, AcqMarker, InputHandle, AttachErrorS);
 pub enum LinkFrame { Attach(Attach), Flow(LinkFlow), Transfer { input_handle: InputHandle, performative: Transfer, payload: Payload }, Disposition(Disposition), Detach(Detach), Acquisition(AcqMarker) }
-pub struct Rx { pub got: Ghost<Seq<LinkFrame>> }
+/// `errs`: how many of the detaches taken from the channel so far carried an error
+pub struct Rx { pub got: Ghost<Seq<LinkFrame>>, pub errs: Ghost<nat> }
+pub open spec fn detach_err(f: LinkFrame) -> nat { if f is Detach && f->Detach_0.error is Some { 1 } else { 0 } }
 impl Rx {
     #[verifier::external_body]
     pub fn recv(&mut self) -> (r: Option<LinkFrame>)
-        ensures (match r { Some(f) => final(self).got@ == old(self).got@.push(f), None => final(self).got@ == old(self).got@ }),
+        ensures (match r { Some(f) => final(self).got@ == old(self).got@.push(f) && final(self).errs@ == old(self).errs@ + detach_err(f), None => final(self).got@ == old(self).got@ && final(self).errs@ == old(self).errs@ }),
     { unimplemented!() }
 }
 pub struct EndS { pub link: LinkS, pub sent: Ghost<Seq<(bool, Option<AmqpError>)>>, pub has_handle: Ghost<bool>, pub failures: Ghost<nat>, pub incoming: Rx }
@@ -77,6 +81,7 @@ impl EndS {
     pub fn reattach_inner(&mut self) -> (r: Result<(), AttachErrorS>)
         ensures final(self).sent == old(self).sent, final(self).failures@ >= old(self).failures@, final(self).incoming.got@.len() >= old(self).incoming.got@.len(),
             r is Ok ==> final(self).link.st is Attached && final(self).has_handle@,
+            r is Ok ==> final(self).incoming.errs@ == old(self).incoming.errs@,   // ASSUMED: the attach exchange takes the peer's attach off the channel; a detach instead of it fails the re-attach
     { unimplemented!() }
     /// contracts [C13.link.one-detach] / [C13.link.detach-frame] / [C13.link.close-answered-by-close] of unit LINK
     #[verifier::external_body]
@@ -84,6 +89,7 @@ impl EndS {
         ensures
             !send_legal(old(self).link.st, closed) ==> r is Err && final(self).sent@ == old(self).sent@ && final(self).link.st == old(self).link.st,
             old(self).link.st is CloseReceived && !closed ==> r == Err::<(), DetachError>(DetachError::ClosedByRemote),
+            r is Err && r->Err_0 is ClosedByRemote ==> old(self).link.st is CloseReceived && !closed,
             send_legal(old(self).link.st, closed) ==> final(self).link.st == (match (old(self).link.st, closed) {
                     (LinkState::Attached, false) => LinkState::DetachSent,
                     (LinkState::DetachReceived, false) => LinkState::Detached,
@@ -100,7 +106,7 @@ impl EndS {
     { unimplemented!() }
 }
 #[verifier::external_body]
-pub fn detach_error_from_stop_reason(e: &EndS) -> (r: DetachError) { unimplemented!() }
+pub fn detach_error_from_stop_reason(e: &EndS) -> (r: DetachError) ensures r is SessionStopped || r is IllegalState { unimplemented!() }
 pub trait ErrInto<T>: Sized { spec fn conv(self) -> T; fn err_into(self) -> (r: T) ensures r == self.conv(); }
 impl ErrInto<DetachError> for DetachError { open spec fn conv(self) -> DetachError { self } fn err_into(self) -> (r: DetachError) { let e = self; assert(e == <DetachError as ErrInto<DetachError>>::conv(self)); e } }
 
@@ -116,10 +122,13 @@ impl ErrInto<DetachError> for DetachError { open spec fn conv(self) -> DetachErr
         final(link_inner).incoming.got@.len() >= old(link_inner).incoming.got@.len(),
         r is Ok ==> final(link_inner).incoming.got@.len() > old(link_inner).incoming.got@.len()
             && final(link_inner).incoming.got@.last() == LinkFrame::Detach(r->Ok_0),                                   // [C13.link.detach-returns-after-peer-answer] it returns Ok only with a detach actually received from the peer (other frames still in flight are skipped)
+        r is Err ==> !(r->Err_0 is ClosedByRemote),
+        r is Ok ==> final(link_inner).incoming.errs@ == old(link_inner).incoming.errs@ + (if r->Ok_0.error is Some { 1nat } else { 0nat }),   // the first detach that arrives is the one returned
 //@@ loop 0
         invariant
             link_inner.sent == old(link_inner).sent, link_inner.link == old(link_inner).link, link_inner.failures == old(link_inner).failures, link_inner.has_handle == old(link_inner).has_handle,
             link_inner.incoming.got@.len() >= old(link_inner).incoming.got@.len(),
+            link_inner.incoming.errs@ == old(link_inner).incoming.errs@,
 //@@ end
 
 //@@ fn file=fe2o3-amqp/src/link/shared_inner.rs name=reattach_and_then_close
@@ -133,6 +142,8 @@ impl ErrInto<DetachError> for DetachError { open spec fn conv(self) -> DetachErr
         final(link_inner).sent@ == old(link_inner).sent@ || final(link_inner).sent@ == old(link_inner).sent@.push((true, None::<AmqpError>)),   // [C13.link.reattach-then-one-closing-detach] after the re-attach exactly one closing detach (without an error of our own) is sent, or none if the re-attach failed
         r is Ok ==> final(link_inner).sent@ == old(link_inner).sent@.push((true, None::<AmqpError>)) && final(link_inner).link.st is Closed
             && final(link_inner).incoming.got@.len() > old(link_inner).incoming.got@.len() && final(link_inner).incoming.got@.last() is Detach,   // [C13.link.detach-returns-after-peer-answer] Ok only after the peer's closing detach came back
+        r is Ok ==> final(link_inner).incoming.errs@ == old(link_inner).incoming.errs@,   // [C13.link.peer-detach-error-reported] an error carried by the peer's answer fails the call (it is what the caller gets)
+        r is Err ==> !(r->Err_0 is ClosedByRemote),
 //@@ end
 
 impl EndS {
@@ -159,6 +170,8 @@ impl EndS {
             &&& (r is Ok ==> final(self).incoming.got@.len() > old(self).incoming.got@.len() && final(self).link.st is Detached
                     && final(self).sent@ == old(self).sent@.push((false, error)))                                                         // [C13.link.detach-returns-after-peer-answer] detach() returns Ok only after the peer's (non-closing, error-free) detach has arrived; then the link is Detached and exactly one detach was sent
         }),
+        (old(self).link.st is Attached || old(self).link.st is DetachSent) && (r is Ok || r == Err::<(), DetachError>(DetachError::ClosedByRemote))
+            ==> final(self).incoming.errs@ == old(self).incoming.errs@,   // [C13.link.peer-detach-error-reported] an error carried by the peer's detach -- closing or not -- is what the caller gets: detach() reports plain ClosedByRemote (or Ok) only if no detach of the peer taken during the call carried an error
         old(self).link.st is DetachSent ==> final(self).sent@.len() <= old(self).sent@.len() + 1
             && (final(self).sent@.len() == old(self).sent@.len() + 1 ==> final(self).sent@.last() == (true, None::<AmqpError>)),          // [C13.link.one-detach] no second non-closing detach
         old(self).link.st is Detached ==> r is Ok && final(self).sent@ == old(self).sent@,                            // [C13.link.no-second-detach] an already detached link sends nothing more
